@@ -3,10 +3,12 @@ import os, re, shutil, struct
 from common import run_fjv, workdir, pmap
 from gen import Gen, KEYS
 from seqdiff import run_seq
+from seqprop import audit
 import journal as J
 
-LEVEL = "translation_validation"
-COQ_TARGETS = ()
+LEVEL = "proof"
+COQ_TARGETS = ("props/C11.vo",)
+THEOREMS = ["C11_seqno_above_all", "C11_later_write_wins_partial"]
 
 
 def programs(seed, n, nops):
@@ -72,6 +74,7 @@ def counter_check(prog):
 
 def run(rep, tier, seed, build):
     n, nops = (200, 35) if tier == "quick" else (5000, 90)
+    problems = audit(rep, "props/C11.v", THEOREMS, build)
     progs = programs(seed, n, nops)
     res = run_seq(rep, progs)
     st = res["stats"]
@@ -91,6 +94,13 @@ def run(rep, tier, seed, build):
                         samples=[progs[0].splitlines()[:14]], op_histogram=dict(res["ophist"]),
                         counter_failures=len(cc), known_finding_programs=st["known_finding_programs"],
                         correspondence_failures=st.get("correspondence_failures", 0))
+    from common import TRUSTED_BASE
+    obl, dis, pr, pf = rep._audit
+    rep.coverage.update(obligations=obl, discharged=dis if not pr else min(dis, obl - 1), trusted_base=TRUSTED_BASE,
+                        checker_cmd="cd coq && make props/C11.vo (coqc 8.16.1) + Print Assumptions audit",
+                        traces_validated_against_impl=st["programs"], proof_problems=pr)
+    if pr and not rep.violations:
+        rep.violation("# C11: proof obligations no longer check\n" + "\n".join(pr) + "\n", suffix="no-failing-input-found")
 
 
 def replay(rep, path, build):
